@@ -14,6 +14,9 @@ func verifC20run(p *vProfile) {
 	h := &vHist{p: p}
 	w := &vWorld{name: "A", cur: -1}
 	opts := h.options()
+	if verifNdBool("dryflip") {
+		opts = append(opts, DryRun(true), DryRun(false))
+	}
 	opts = append(opts, setClock(vClock{w}))
 	w.c = New(opts...)
 	w.scopes = []*Scope{w.c.scope}
